@@ -31,7 +31,33 @@ def exc_name(e):
 
 
 # ------------------------------------------------------------------------------
-def run_history(rp, tasks, batches):
+def app_callbacks(rp, tm, extra, seen):
+    """application callbacks that use the registry while a notification is being delivered (legal: the
+    registry lock is re-entrant): a one-shot callback takes itself out once it saw what it waited for, a
+    callback registers a follow-up callback.  extra: [{'kind': 'oneshot'|'adder', 'uid': None|i, 'on': state|'final'}]"""
+    FINAL = rp.states.FINAL
+    keep = []
+    for i, x in enumerate(extra or []):
+        uid = None if x.get('uid') is None else 'task.%06d' % x['uid']
+        if uid is not None and uid not in tm._tasks: continue
+        hit = lambda state, x=x: state in FINAL if x['on'] == 'final' else state == x['on']
+        def cb(task, state, x=x, i=i, uid=uid, hit=hit):
+            seen.append([i, int(task.uid.split('.')[1]), state])
+            if not hit(state) or x.get('spent'): return
+            x['spent'] = True
+            if x['kind'] == 'oneshot':
+                tm.unregister_callback(cb=keep[x['slot']], uid=uid)
+            else:
+                follow = lambda task, state: seen.append([100 + i, int(task.uid.split('.')[1]), state])
+                keep.append(follow)
+                tm.register_callback(follow, uid=uid)
+        x['slot'] = len(keep); x['spent'] = False
+        keep.append(cb)
+        tm.register_callback(cb, uid=uid)
+    return keep
+
+
+def run_history(rp, tasks, batches, extra=None):
     """real TaskManager._update_tasks on real Task objects"""
     tm  = stubs.make_tmgr(rp)
     cbs = []
@@ -40,6 +66,8 @@ def run_history(rp, tasks, batches):
     tm._callbacks[rp.constants.TASK_STATE]['*'] = {
         'rec': {'cb': lambda task, state: cbs.append([int(task.uid.split('.')[1]), state]),
                 'cb_data': None}}
+    seen = []
+    keep = app_callbacks(rp, tm, copy.deepcopy(extra), seen)
     errs = []
     for b in batches:
         dicts = [{'uid': 'task.%06d' % u['uid'], 'state': u['state'], 'type': 'task'}
@@ -183,6 +211,22 @@ def run(ctx):
         if bad:
             ctx.fail(bad[0], bad[1], {'tasks': tasks, 'batches': batches}, observed=res)
             continue
+        # application callbacks that take themselves out of / add to the registry during delivery change nothing
+        # for the other callbacks
+        if res['cbs'] and ctx.rng.random() < 0.4:
+            extra = []
+            for _ in range(ctx.rng.randint(1, 3)):
+                extra.append({'kind': ctx.rng.choice(['oneshot', 'oneshot', 'adder']),
+                              'uid': ctx.rng.choice([None, None, ctx.rng.choice(tasks)['uid']]),
+                              'on': ctx.rng.choice(['final', 'final', res['cbs'][0][1], ctx.rng.choice(res['cbs'])[1]])})
+            res3, errs3 = run_history(rp, tasks, batches, extra)
+            kinds['with_registry_using_callbacks'] = kinds.get('with_registry_using_callbacks', 0) + 1
+            if res3 != res or errs3:
+                ctx.fail('callback-using-the-registry-disturbs-delivery',
+                         'with application callbacks %s the recording callback saw %s (exceptions escaping: %s), without them %s'
+                         % (extra, res3['cbs'], errs3, res['cbs']),
+                         {'tasks': tasks, 'batches': batches, 'extra': extra}, observed=res3, expected=res)
+                continue
         # batch independence on the real code: drop one dict, others unchanged
         if batches and ctx.rng.random() < 0.5:
             bi = ctx.rng.randrange(len(batches))
@@ -227,6 +271,10 @@ def replay(ctx, data):
     res, errs = run_history(rp, inp['tasks'], inp['batches'])
     bad = monitor(rp, inp['tasks'], inp['batches'], res, errs)
     print('observed:', res, errs, bad)
+    if not bad and 'extra' in inp:
+        res3, errs3 = run_history(rp, inp['tasks'], inp['batches'], inp['extra'])
+        print('with application callbacks %s:' % inp['extra'], res3, errs3)
+        return res3 == res and not errs3
     if not bad and 'removed' in inp:
         bi, di = inp['removed']
         d  = inp['batches'][bi][di]
